@@ -139,8 +139,18 @@ class FakeS3:
     def delete_object(self, Bucket, Key, **kw):
         req = {}
         self._h("before", "delete", Key, req)
+        if kw.get("IfMatch") is not None:
+            # conditional delete: evaluated when the request lands
+            cur = self.objects.get(Key)
+            if cur is None:
+                self.log.append(("delete", Key, {"existed": False, "prev": None, "cond": "IfMatch", "ok": False}))
+                raise client_error("NoSuchKey", "DeleteObject", 404)
+            if cur["etag"] != kw["IfMatch"]:
+                self.log.append(("delete", Key, {"existed": False, "prev": cur["body"], "cond": "IfMatch", "ok": False}))
+                raise client_error("PreconditionFailed", "DeleteObject", 412)
         existed = self.objects.pop(Key, None)
-        self.log.append(("delete", Key, {"existed": existed is not None, "prev": existed["body"] if existed else None}))
+        self.log.append(("delete", Key, {"existed": existed is not None, "prev": existed["body"] if existed else None,
+                                         "prev_age_s": (self.now() - existed["mtime"]).total_seconds() if existed else None}))
         req["landed"] = True
         self._h("after", "delete", Key, req)
         return {}
